@@ -71,24 +71,47 @@ theorem digit_not_x {c : Char} (h : isDigit c = true) : (c == 'x') = false ∧ (
 
 /-! ### Runs of digits -/
 
-theorem scan_cons_some (cfg : Cfg) (st st' : St) (c : Char) (r : List Char) (n : Nat)
-    (h : step cfg st c = some st') : scan cfg st (c :: r) n = scan cfg st' r (n + 1) := by
+theorem scan_cons_some (cfg : Cfg) (st st' : St) (c : Char) (r : List Char) (n : Nat) (f : Flags)
+    (h : step cfg st c = some st') : scan cfg st (c :: r) n f = scan cfg st' r (n + 1) (mark cfg st c f) := by
   simp [scan, h]
 
-theorem scan_cons_none (cfg : Cfg) (st : St) (c : Char) (r : List Char) (n : Nat)
-    (h : step cfg st c = none) : scan cfg st (c :: r) n = (settle st, n, c :: r) := by
+theorem scan_cons_none (cfg : Cfg) (st : St) (c : Char) (r : List Char) (n : Nat) (f : Flags)
+    (h : step cfg st c = none) : scan cfg st (c :: r) n f = (settle st, n, c :: r, f) := by
   simp [scan, h]
 
-/-- a run of chars on which the automaton loops in `st` -/
-theorem scan_run (st : St) (p : Char → Bool) (hp : ∀ c, p c = true → step std st c = some st)
-    (ds r : List Char) (n : Nat) (h : ds.all p = true) :
-    scan std st (ds ++ r) n = scan std st r (n + ds.length) := by
-  induction ds generalizing n with
-  | nil => simp
+/-- the counters after a non-empty run marked by the idempotent update `g` -/
+def afterRun (g : Flags → Flags) (ds : List Char) (f : Flags) : Flags := if ds.isEmpty then f else g f
+
+/-- a run of chars on which the automaton loops in `st`, each of them updating the counters by `g` -/
+theorem scan_run (st : St) (p : Char → Bool) (g : Flags → Flags)
+    (hp : ∀ c, p c = true → step std st c = some st) (hm : ∀ c f, p c = true → mark std st c f = g f)
+    (hgg : ∀ f, g (g f) = g f) (ds r : List Char) (n : Nat) (f : Flags) (h : ds.all p = true) :
+    scan std st (ds ++ r) n f = scan std st r (n + ds.length) (afterRun g ds f) := by
+  induction ds generalizing n f with
+  | nil => simp [afterRun]
   | cons d ds ih =>
     simp only [List.all_cons, Bool.and_eq_true] at h
-    rw [List.cons_append, scan_cons_some std st st d _ n (hp d h.1), ih (n + 1) h.2]
+    rw [List.cons_append, scan_cons_some std st st d _ n f (hp d h.1), ih (n + 1) _ h.2, hm d f h.1]
+    have : afterRun g ds (g f) = afterRun g (d :: ds) f := by
+      cases ds <;> simp [afterRun, hgg]
+    rw [this]
     simp only [List.length_cons]; congr 1; omega
+
+def setMant (f : Flags) : Flags := { f with mant := true }
+def setExp (f : Flags) : Flags := { f with exp := true }
+
+theorem mark_int (c : Char) (f : Flags) : mark std .int c f = f := by simp [mark, std]
+theorem mark_float (c : Char) (f : Flags) : mark std .float c f = f := by simp [mark, std]
+theorem mark_hex_digit (c : Char) (f : Flags) (h : isHexDigit c = true) : mark std .hex c f = setMant f := by
+  simp [mark, std, h, setMant]
+theorem mark_hexFloat_digit (c : Char) (f : Flags) (h : isHexDigit c = true) :
+    mark std .hexFloat c f = setMant f := by simp [mark, std, h, setMant]
+theorem mark_expo_digit (c : Char) (f : Flags) (h : isDigit c = true) : mark std .expo c f = setExp f := by
+  simp [mark, std, h, setExp]
+theorem mark_hex_other (c : Char) (f : Flags) (h : isHexDigit c = false) : mark std .hex c f = f := by
+  simp [mark, std, h]
+theorem mark_hexFloat_other (c : Char) (f : Flags) (h : isHexDigit c = false) : mark std .hexFloat c f = f := by
+  simp [mark, std, h]
 
 theorem step_int_digit (c : Char) (h : isDigit c = true) : step std .int c = some .int := by
   simp [step, std, h]
@@ -159,28 +182,51 @@ theorem halt_of_letter (c : Char) (r : List Char) (ha : isAlpha c = true) (hh : 
   refine ⟨fun st hst => ?_, hx, hX⟩
   cases st <;> simp [step, std, hd, hh, hdot, he, hE, hp, hP, h0, h1] at hst ⊢
 
-theorem scan_stop (st : St) (hst : st ≠ .expoSign) (r : List Char) (n : Nat) (h : Halt r) :
-    scan std st r n = (st, n, r) := by
+theorem scan_stop (st : St) (hst : st ≠ .expoSign) (r : List Char) (n : Nat) (f : Flags) (h : Halt r) :
+    scan std st r n f = (st, n, r, f) := by
   have hs : settle st = st := by cases st <;> simp [settle] at hst ⊢
   cases r with
   | nil => simp [scan, hs]
   | cons c r =>
-    rw [scan_cons_none std st c r n (h.1 st hst), hs]
+    rw [scan_cons_none std st c r n f (h.1 st hst), hs]
 
 /-! ### Exponents -/
 
+theorem digit_not_sign {c : Char} (h : isDigit c = true) : isSign c = false := by
+  simp only [isDigit, Bool.and_eq_true, decide_eq_true_eq] at h
+  simp only [isSign, Bool.or_eq_false_iff]
+  constructor
+  · cases hc : c == '+' with
+    | false => rfl
+    | true => have : c = '+' := by simpa using hc
+              subst this; exact absurd h.1 (by decide)
+  · cases hc : c == '-' with
+    | false => rfl
+    | true => have : c = '-' := by simpa using hc
+              subst this; exact absurd h.1 (by decide)
+
+theorem setExp_idem (f : Flags) : setExp (setExp f) = setExp f := rfl
+theorem setMant_idem (f : Flags) : setMant (setMant f) = setMant f := rfl
+
+theorem afterRun_append (g : Flags → Flags) (hgg : ∀ f, g (g f) = g f) (a b : List Char) (f : Flags) :
+    afterRun g b (afterRun g a f) = afterRun g (a ++ b) f := by
+  cases a <;> cases b <;> simp [afterRun, hgg]
+
 /-- from the position after the exponent letter: optional sign, digits, then a stop -/
-theorem scan_exponent (sign : Option Char) (ds r : List Char) (n : Nat)
+theorem scan_exponent (sign : Option Char) (ds r : List Char) (n : Nat) (f : Flags)
     (hs : signOk sign = true)
     (hne : ds ≠ []) (hd : ds.all isDigit = true) (hr : Halt r) :
-    scan std .expoSign (signChars sign ++ ds ++ r) n =
-      (.expo, n + (signChars sign).length + ds.length, r) := by
+    scan std .expoSign (signChars sign ++ ds ++ r) n f =
+      (.expo, n + (signChars sign).length + ds.length, r, setExp f) := by
+  have hrun : afterRun setExp ds f = setExp f := by cases ds <;> simp [afterRun] at hne ⊢
   cases sign with
   | some s =>
     simp only [signOk] at hs
     simp only [signChars, List.cons_append, List.nil_append, List.length_cons, List.length_nil]
-    rw [scan_cons_some std .expoSign .expo s _ n (by simp [step, hs]),
-      scan_run .expo isDigit step_expo_digit ds r _ hd, scan_stop .expo (by decide) r _ hr]
+    have hm : mark std .expoSign s f = f := by simp [mark, std, hs]
+    rw [scan_cons_some std .expoSign .expo s _ n f (by simp [step, hs]), hm,
+      scan_run .expo isDigit setExp step_expo_digit mark_expo_digit setExp_idem ds r _ f hd,
+      scan_stop .expo (by decide) r _ _ hr, hrun]
   | none =>
     cases ds with
     | nil => exact absurd rfl hne
@@ -188,9 +234,14 @@ theorem scan_exponent (sign : Option Char) (ds r : List Char) (n : Nat)
       simp only [List.all_cons, Bool.and_eq_true] at hd
       have hsd : step std .expoSign d = some .expo := by
         simp only [step, std, Bool.false_and, hd.1]; split <;> simp
+      have hm : mark std .expoSign d f = setExp f := by
+        simp [mark, std, hd.1, digit_not_sign hd.1, setExp]
       simp only [signChars, List.nil_append, List.cons_append, List.length_nil]
-      rw [scan_cons_some std .expoSign .expo d _ n hsd, scan_run .expo isDigit step_expo_digit ds r _ hd.2,
-        scan_stop .expo (by decide) r _ hr]
+      rw [scan_cons_some std .expoSign .expo d _ n f hsd, hm,
+        scan_run .expo isDigit setExp step_expo_digit mark_expo_digit setExp_idem ds r _ _ hd.2,
+        scan_stop .expo (by decide) r _ _ hr]
+      have : afterRun setExp ds (setExp f) = setExp f := by cases ds <;> simp [afterRun, setExp]
+      rw [this]
       simp only [List.length_cons]; congr 2; omega
 
 /-! ### Mantissa + exponent, generic in (integer state, fraction state, digit class, exponent letters) -/
@@ -205,39 +256,56 @@ def finalSt (sI sF : St) (frac : Option (List Char)) (expo : Option Exponent) : 
   | none, some _ => sF
   | none, none => sI
 
-theorem scan_mantissa (sI sF : St) (p isL : Char → Bool)
+def fracDigits : Option (List Char) → List Char
+  | some f => f
+  | none => []
+
+def expoF : Option Exponent → Flags → Flags
+  | some _, f => setExp f
+  | none, f => f
+
+theorem scan_mantissa (sI sF : St) (p isL : Char → Bool) (g : Flags → Flags)
     (hI : ∀ c, p c = true → step std sI c = some sI) (hF : ∀ c, p c = true → step std sF c = some sF)
+    (hmI : ∀ c f, p c = true → mark std sI c f = g f) (hmF : ∀ c f, p c = true → mark std sF c f = g f)
+    (hgg : ∀ f, g (g f) = g f)
     (hLI : ∀ c, isL c = true → step std sI c = some .expoSign)
     (hLF : ∀ c, isL c = true → step std sF c = some .expoSign)
+    (hmLI : ∀ c f, isL c = true → mark std sI c f = f) (hmLF : ∀ c f, isL c = true → mark std sF c f = f)
     (hsI : sI ≠ .expoSign) (hsF : sF ≠ .expoSign)
-    (ip : List Char) (frac : Option (List Char)) (expo : Option Exponent) (r : List Char) (n : Nat)
-    (hdot : frac.isSome = true → step std sI '.' = some sF)
+    (ip : List Char) (frac : Option (List Char)) (expo : Option Exponent) (r : List Char) (n : Nat) (f : Flags)
+    (hdot : frac.isSome = true → step std sI '.' = some sF ∧ ∀ f, mark std sI '.' f = f)
     (hip : ip.all p = true) (hfr : fracAll p frac = true)
     (hex : ExpoOk isL expo) (hr : Halt r) :
-    scan std sI (ip ++ fracChars frac ++ expoChars expo ++ r) n =
-      (finalSt sI sF frac expo, n + ip.length + (fracChars frac).length + (expoChars expo).length, r) := by
-  have expoTail : ∀ (st : St) (m : Nat), (∀ c, isL c = true → step std st c = some .expoSign) → st ≠ .expoSign →
-      scan std st (expoChars expo ++ r) m =
-        ((match expo with | some _ => St.expo | none => st), m + (expoChars expo).length, r) := by
-    intro st m hL hst
+    scan std sI (ip ++ fracChars frac ++ expoChars expo ++ r) n f =
+      (finalSt sI sF frac expo, n + ip.length + (fracChars frac).length + (expoChars expo).length, r,
+        expoF expo (afterRun g (ip ++ fracDigits frac) f)) := by
+  have expoTail : ∀ (st : St) (m : Nat) (f : Flags), (∀ c, isL c = true → step std st c = some .expoSign) →
+      (∀ c f, isL c = true → mark std st c f = f) → st ≠ .expoSign →
+      scan std st (expoChars expo ++ r) m f =
+        ((match expo with | some _ => St.expo | none => st), m + (expoChars expo).length, r, expoF expo f) := by
+    intro st m f hL hmL hst
     cases expo with
-    | none => simp only [expoChars, List.nil_append, List.length_nil, Nat.add_zero]; exact scan_stop st hst r m hr
+    | none =>
+      simp only [expoChars, List.nil_append, List.length_nil, Nat.add_zero, expoF]
+      exact scan_stop st hst r m f hr
     | some e =>
       obtain ⟨h1, h2, h3, h4⟩ := hex
-      simp only [expoChars, Exponent.render, List.cons_append]
-      rw [scan_cons_some std st .expoSign e.letter _ m (hL _ h1)]
-      have := scan_exponent e.sign e.digits r (m + 1) h2 h3 h4 hr
+      simp only [expoChars, Exponent.render, List.cons_append, expoF]
+      rw [scan_cons_some std st .expoSign e.letter _ m f (hL _ h1), hmL _ _ h1]
+      have := scan_exponent e.sign e.digits r (m + 1) f h2 h3 h4 hr
       rw [this]
       cases e.sign <;> simp [signChars] <;> omega
-  rw [List.append_assoc, List.append_assoc, scan_run sI p hI ip _ n hip]
+  rw [List.append_assoc, List.append_assoc, scan_run sI p g hI hmI hgg ip _ n f hip]
   cases frac with
   | none =>
-    simp only [fracChars, List.nil_append, List.length_nil, Nat.add_zero]
-    rw [expoTail sI _ hLI hsI]
+    simp only [fracChars, fracDigits, List.nil_append, List.length_nil, Nat.add_zero, List.append_nil]
+    rw [expoTail sI _ _ hLI hmLI hsI]
     cases expo <;> simp [finalSt]
-  | some f =>
-    simp only [fracChars, List.cons_append, List.length_cons]
-    rw [scan_cons_some std sI sF '.' _ _ (hdot rfl), scan_run sF p hF f _ _ hfr, expoTail sF _ hLF hsF]
+  | some fd =>
+    obtain ⟨hd1, hd2⟩ := hdot rfl
+    simp only [fracChars, fracDigits, List.cons_append, List.length_cons]
+    rw [scan_cons_some std sI sF '.' _ _ _ hd1, hd2, scan_run sF p g hF hmF hgg fd _ _ _ hfr,
+      afterRun_append g hgg, expoTail sF _ _ hLF hmLF hsF]
     cases expo <;> simp [finalSt] <;> omega
 
 theorem zeroPrefix_std (l : List Char) (n : Nat)
@@ -252,11 +320,37 @@ def headAlpha : List Char → Bool
   | [] => false
   | c :: _ => isAlpha c
 
-theorem finish_std (st : St) (n : Nat) (r : List Char) :
-    finish std st n r = ⟨if st = .int ∨ st = .hex then .TkInt else .TkFloat, n, headAlpha r⟩ := by
+theorem finish_std (st : St) (n : Nat) (r : List Char) (mal : Bool) :
+    finish std st n r mal = ⟨if st = .int ∨ st = .hex then .TkInt else .TkFloat, n, mal || headAlpha r⟩ := by
   cases r with
   | nil => simp [finish, std, headAlpha]
   | cons c r => simp [finish, std, headAlpha]
+
+theorem hasDigit_ne_nil (ip : List Char) (frac : Option (List Char)) (h : hasDigit ip frac = true) :
+    ip ++ fracDigits frac ≠ [] := by
+  cases frac with
+  | none => simp [hasDigit, fracDigits] at h ⊢; exact h
+  | some f =>
+    simp only [hasDigit, Bool.or_eq_true, Bool.not_eq_true', List.isEmpty_eq_false_iff] at h
+    simp only [fracDigits]
+    intro hc
+    simp only [List.append_eq_nil_iff] at hc
+    rcases h with h | h
+    · exact h hc.1
+    · exact h hc.2
+
+/-- a complete numeral is not malformed -/
+theorem not_malformed (isHex : Bool) (sI sF : St) (g : Flags → Flags) (ds : List Char)
+    (frac : Option (List Char)) (expo : Option Exponent) (hsI : sI ≠ .expo) (hsF : sF ≠ .expo)
+    (hm : isHex = true → (afterRun g ds ⟨false, false⟩).mant = true) :
+    malformed isHex (finalSt sI sF frac expo) (expoF expo (afterRun g ds ⟨false, false⟩)) = false := by
+  have hmant : (isHex && !(expoF expo (afterRun g ds ⟨false, false⟩)).mant) = false := by
+    cases isHex with
+    | false => rfl
+    | true => cases expo <;> simp [expoF, setExp, hm rfl]
+  unfold malformed
+  rw [hmant]
+  cases expo <;> cases frac <;> simp [finalSt, expoF, setExp, hsI, hsF]
 
 /-! ### The whole numeral -/
 
@@ -270,6 +364,10 @@ theorem letter_hex_int (c : Char) (h : isExpoLetter true c = true) : step std .h
   simp only [isExpoLetter, if_true, Bool.or_eq_true, beq_iff_eq] at h
   rcases h with h | h <;> subst h <;> decide
 theorem letter_hex_float (c : Char) (h : isExpoLetter true c = true) : step std .hexFloat c = some .expoSign := by
+  simp only [isExpoLetter, if_true, Bool.or_eq_true, beq_iff_eq] at h
+  rcases h with h | h <;> subst h <;> decide
+
+theorem letter_not_hexdigit (c : Char) (h : isExpoLetter true c = true) : isHexDigit c = false := by
   simp only [isExpoLetter, if_true, Bool.or_eq_true, beq_iff_eq] at h
   rcases h with h | h <;> subst h <;> decide
 
@@ -328,17 +426,27 @@ theorem lex_numeral (n : Numeral) (hwf : n.wf = true) (r : List Char) (hr : Halt
   | some x =>
     simp only [Option.isSome_some, if_true] at h2 h3 h5
     have hx : (x == 'x' || x == 'X') = true := h1
-    have hm := scan_mantissa .hex .hexFloat isHexDigit (isExpoLetter true) step_hex_digit step_hexFloat_digit
-      letter_hex_int letter_hex_float (by decide) (by decide) ip frac expo r 2 (fun _ => by decide) h2 h3
+    have hm := scan_mantissa .hex .hexFloat isHexDigit (isExpoLetter true) setMant step_hex_digit step_hexFloat_digit
+      mark_hex_digit mark_hexFloat_digit setMant_idem letter_hex_int letter_hex_float
+      (fun c f h => mark_hex_other c f (letter_not_hexdigit c h))
+      (fun c f h => mark_hexFloat_other c f (letter_not_hexdigit c h)) (by decide) (by decide) ip frac expo r 2
+      ⟨false, false⟩ (fun _ => ⟨by decide, fun f => mark_hex_other '.' f (by decide)⟩) h2 h3
       (expoOk_of_wf true expo h5) hr
+    have hnm := not_malformed true .hex .hexFloat setMant (ip ++ fracDigits frac) frac expo (by decide) (by decide)
+      (fun _ => by
+        have := hasDigit_ne_nil ip frac h4
+        cases hds : ip ++ fracDigits frac with
+        | nil => exact absurd hds this
+        | cons a b => simp [afterRun, setMant])
     simp only [Numeral.render, hexChars, List.cons_append, List.nil_append, List.append_assoc, lexNumber,
       beq_self_eq_true, if_true, zeroPrefix, hx]
     simp only [List.append_assoc] at hm
     rw [hm]
+    simp only [decide_true, hnm, Bool.false_or]
     simp only [finish_std, expected, Numeral.isFloat, Numeral.render, hexChars,
       kind_of_final .hex .hexFloat frac expo (Or.inr rfl) (Or.inr rfl)]
     simp only [List.length_append, List.length_cons, List.length_nil, Option.some.injEq, Out.mk.injEq, true_and, and_true]
-    first | omega | rfl | (refine ⟨rfl, ?_⟩; omega)
+    first | omega | rfl | (simp; done) | (simp; omega)
   | none =>
     simp only [Option.isSome_none, Bool.false_eq_true, if_false] at h2 h3 h5
     have hE := expoOk_of_wf false expo h5
@@ -350,9 +458,13 @@ theorem lex_numeral (n : Numeral) (hwf : n.wf = true) (r : List Char) (hr : Halt
         cases f with
         | nil => simp [hasDigit] at h4
         | cons d fs =>
-          have hm := scan_mantissa .float .float isDigit (isExpoLetter false) step_float_digit step_float_digit
-            letter_dec_float letter_dec_float (by decide) (by decide) (d :: fs) none expo r 1
+          have hm := scan_mantissa .float .float isDigit (isExpoLetter false) id step_float_digit step_float_digit
+            (fun c f _ => mark_float c f) (fun c f _ => mark_float c f) (fun _ => rfl)
+            letter_dec_float letter_dec_float (fun c f _ => mark_float c f) (fun c f _ => mark_float c f)
+            (by decide) (by decide) (d :: fs) none expo r 1 ⟨false, false⟩
             (fun h => by simp at h) h3 rfl hE hr
+          have hnm := not_malformed false .float .float id (d :: (fs ++ fracDigits none)) none expo (by decide)
+            (by decide) (fun h => by cases h)
           simp only [fracChars, List.append_nil, List.append_assoc] at hm
           simp only [Numeral.render, hexChars, fracChars, List.cons_append, List.nil_append, List.append_assoc,
             lexNumber]
@@ -360,16 +472,23 @@ theorem lex_numeral (n : Numeral) (hwf : n.wf = true) (r : List Char) (hr : Halt
           simp only [e1, Bool.false_eq_true, if_false, beq_self_eq_true, if_true]
           simp only [List.cons_append] at hm
           rw [hm]
+          have hdec : decide (St.float = St.hex) = false := by decide
+          simp only [hdec, hnm, Bool.false_or]
           simp only [finish_std, expected, Numeral.isFloat, Numeral.render, hexChars, fracChars]
           have hk : (if finalSt .float .float none expo = .int ∨ finalSt .float .float none expo = .hex then Kind.TkInt
               else Kind.TkFloat) = Kind.TkFloat := by cases expo <;> simp [finalSt]
           simp only [hk, Option.isSome_some, Bool.true_or, if_true, List.length_append, List.length_cons,
             List.length_nil, List.nil_append, Option.some.injEq, Out.mk.injEq, true_and, and_true]
-          omega
+          first | omega | rfl | (simp; done) | (simp; omega)
     | cons d ds =>
       simp only [List.all_cons, Bool.and_eq_true] at h2
-      have hm := scan_mantissa .int .float isDigit (isExpoLetter false) step_int_digit step_float_digit
-        letter_dec_int letter_dec_float (by decide) (by decide) ds frac expo r 1 (fun _ => by decide) h2.2 h3 hE hr
+      have hm := scan_mantissa .int .float isDigit (isExpoLetter false) id step_int_digit step_float_digit
+        (fun c f _ => mark_int c f) (fun c f _ => mark_float c f) (fun _ => rfl)
+        letter_dec_int letter_dec_float (fun c f _ => mark_int c f) (fun c f _ => mark_float c f)
+        (by decide) (by decide) ds frac expo r 1 ⟨false, false⟩
+        (fun _ => ⟨by decide, fun f => mark_int '.' f⟩) h2.2 h3 hE hr
+      have hnm := not_malformed false .int .float id (ds ++ fracDigits frac) frac expo (by decide) (by decide)
+        (fun h => by cases h)
       have hstart : (if (d == '0') = true then zeroPrefix std (ds ++ fracChars frac ++ expoChars expo ++ r) 1
           else if (d == '.') = true then (St.float, 1, ds ++ fracChars frac ++ expoChars expo ++ r)
           else (St.int, 1, ds ++ fracChars frac ++ expoChars expo ++ r)) =
@@ -386,10 +505,12 @@ theorem lex_numeral (n : Numeral) (hwf : n.wf = true) (r : List Char) (hr : Halt
       rw [hstart]
       simp only []
       rw [hm]
+      have hdec : decide (St.int = St.hex) = false := by decide
+      simp only [hdec, hnm, Bool.false_or]
       simp only [finish_std, expected, Numeral.isFloat, Numeral.render, hexChars,
         kind_of_final .int .float frac expo (Or.inl rfl) (Or.inl rfl)]
       simp only [List.length_append, List.length_cons, List.length_nil, List.nil_append, Option.some.injEq,
         Out.mk.injEq, true_and, and_true]
-      first | omega | rfl | (refine ⟨rfl, ?_⟩; omega)
+      first | omega | rfl | (simp; done) | (simp; omega)
 
 end NumLex
